@@ -17,6 +17,13 @@ Every rule then sees the same tree for
     n = n + e / n = e + n      ->  n += e                (n a local initialised with a number in that function;
                                                           also n = n - e)
 
+    not (a or b)               ->  not a and not b       (and dually; `not not x` vanishes where only the truth
+                                                          value of x matters: tests of if / while / conditional
+                                                          expressions)
+    t = g(..); f(t, ..)        ->  f(g(..), ..)          (t a plain local used nowhere else; first argument of the
+                                                          top-level call of the next statement, so the order of
+                                                          evaluation is unchanged)
+
 Positions of the original nodes are kept, so reports still point at the source line.  `tools/equiv_probe.py`
 applies the inverse rewrites to every module and checks that every rule stays silent.
 """
@@ -45,8 +52,42 @@ def _literalish(node: ast.AST) -> bool:
     return False
 
 
+def _not(expr: ast.AST) -> ast.AST:
+    """canonical negation of an expression that is only looked at for its truth value (or is a bool already)"""
+    if isinstance(expr, ast.UnaryOp) and isinstance(expr.op, ast.Not):
+        return _truth_form(expr.operand)
+    if isinstance(expr, ast.Compare) and len(expr.ops) == 1 and type(expr.ops[0]) in NEGATE:
+        return ast.copy_location(ast.Compare(left=expr.left, ops=[NEGATE[type(expr.ops[0])]()], comparators=expr.comparators), expr)
+    if isinstance(expr, ast.BoolOp):
+        op = ast.And() if isinstance(expr.op, ast.Or) else ast.Or()
+        return ast.copy_location(ast.BoolOp(op=op, values=[_not(v) for v in expr.values]), expr)
+    return ast.copy_location(ast.UnaryOp(op=ast.Not(), operand=expr), expr)
+
+
+def _truth_form(expr: ast.AST) -> ast.AST:
+    """`expr` in a position where only its truth value matters (test of if / while / conditional expression,
+    operand of `not`): double negations vanish, `not` is distributed over and / or"""
+    if isinstance(expr, ast.UnaryOp) and isinstance(expr.op, ast.Not):
+        return _not(expr.operand)
+    if isinstance(expr, ast.BoolOp):
+        return ast.copy_location(ast.BoolOp(op=expr.op, values=[_truth_form(v) for v in expr.values]), expr)
+    return expr
+
+
+def _all_negative(test: ast.AST) -> bool:
+    if isinstance(test, ast.UnaryOp) and isinstance(test.op, ast.Not):
+        return True
+    if isinstance(test, ast.Compare) and len(test.ops) == 1 and isinstance(test.ops[0], NEGATIVE):
+        return True
+    if isinstance(test, ast.BoolOp):
+        return all(_all_negative(v) for v in test.values)
+    return False
+
+
 def _positive(test: ast.AST) -> Optional[ast.AST]:
     """the test whose negation `test` is, when `test` is spelled negatively"""
+    if isinstance(test, ast.BoolOp) and _all_negative(test):
+        return _not(test)  # `not a or not b` is the negation of `a and b`
     if isinstance(test, ast.UnaryOp) and isinstance(test.op, ast.Not):
         return test.operand
     if isinstance(test, ast.Compare) and len(test.ops) == 1 and isinstance(test.ops[0], NEGATIVE):
@@ -88,10 +129,31 @@ class Canon(ast.NodeTransformer):
                 return ast.copy_location(ast.Compare(left=inner.left, ops=[NEGATE[type(inner.ops[0])]()], comparators=inner.comparators), node)
             if isinstance(inner, ast.UnaryOp) and isinstance(inner.op, ast.Not) and isinstance(inner.operand, (ast.Compare, ast.BoolOp)):
                 return inner.operand
+            if isinstance(inner, ast.BoolOp):
+                # De Morgan: the operand of `not` only matters by its truth value, and the result is a bool either way
+                return ast.copy_location(_not(inner), node)
+        return node
+
+    def visit_While(self, node: ast.While):
+        node = self.generic_visit(node)
+        node.test = _truth_form(node.test)
+        return self._guard_form(node)
+
+    def visit_For(self, node: ast.For):
+        node = self.generic_visit(node)
+        return self._guard_form(node)
+
+    visit_AsyncFor = visit_For
+
+    def _guard_form(self, node):
+        """`for ..: if c: BODY` (the conditional is the whole loop body, no else) -> `if not c: continue; BODY`"""
+        # (not applied: rules that care accept both forms; converting changes the polarity under which every
+        # statement of the body is guarded, which costs more than it buys)
         return node
 
     def visit_IfExp(self, node: ast.IfExp):
         node = self.generic_visit(node)
+        node.test = _truth_form(node.test)
         pos = _positive(node.test)
         if pos is not None:
             return ast.copy_location(ast.IfExp(test=pos, body=node.orelse, orelse=node.body), node)
@@ -118,10 +180,11 @@ class Canon(ast.NodeTransformer):
     # -- statements ------------------------------------------------------------
     def visit_If(self, node: ast.If):
         node = self.generic_visit(node)
+        node.test = _truth_form(node.test)
         if node.orelse:
             pos = _positive(node.test)
             if pos is not None:
-                return ast.copy_location(ast.If(test=pos, body=node.orelse, orelse=node.body), node)
+                node = ast.copy_location(ast.If(test=pos, body=node.orelse, orelse=node.body), node)
         return node
 
     def _function(self, node):
@@ -174,14 +237,50 @@ def _inline_return_locals(fn: ast.AST) -> None:
                 continue
             i += 1
 
+    counts: Dict[str, int] = {}
+    for n in ast.walk(fn):
+        if isinstance(n, ast.Name):
+            counts[n.id] = counts.get(n.id, 0) + 1
+
+    def first_arg_slot(st: ast.stmt):
+        """the top-level call of a statement whose FIRST argument is evaluated before anything else of it"""
+        call = None
+        if isinstance(st, ast.Expr) and isinstance(st.value, ast.Call):
+            call = st.value
+        elif isinstance(st, (ast.Assign, ast.Return)) and isinstance(st.value, ast.Call):
+            call = st.value
+        elif isinstance(st, ast.For) and isinstance(st.iter, ast.Call):
+            call = st.iter
+        if call is not None and isinstance(call.func, ast.Name) and call.args and isinstance(call.args[0], ast.Name):
+            return call
+        return None
+
+    def inline_args(stmts: List[ast.stmt]) -> None:
+        """`t = <call>; f(t, ...)` -> `f(<call>, ...)` when t is a plain local used nowhere else"""
+        i = 0
+        while i + 1 < len(stmts):
+            a, b = stmts[i], stmts[i + 1]
+            call = first_arg_slot(b)
+            if (
+                call is not None and isinstance(a, ast.Assign) and len(a.targets) == 1 and isinstance(a.targets[0], ast.Name)
+                and isinstance(a.value, ast.Call) and call.args[0].id == a.targets[0].id
+                and a.targets[0].id not in shared and counts.get(a.targets[0].id) == 2
+            ):
+                call.args[0] = a.value
+                del stmts[i]
+                continue
+            i += 1
+
     for n in ast.walk(fn):
         for fname in ("body", "orelse", "finalbody"):
             blk = getattr(n, fname, None)
             if isinstance(blk, list) and blk and isinstance(blk[0], ast.stmt):
                 block(blk)
+                inline_args(blk)
         if isinstance(n, ast.Try):
             for h in n.handlers:
                 block(h.body)
+                inline_args(h.body)
 
 
 def package_signatures(trees: Sequence[ast.Module]) -> Dict[str, List[str]]:
